@@ -417,6 +417,9 @@ func isShortSigned(netcompat bool, body []byte) bool {
 }
 
 func writeInflight(v interface{}) {
+	if os.Getenv("VERIF_CASE_DIR") == "" {
+		return // not under the driver (manual or native-fuzz run): the working directory is the source tree
+	}
 	b, _ := json.Marshal(v)
 	os.WriteFile("inflight", b, 0o644)
 }
@@ -668,7 +671,7 @@ var dgramClasses = []string{"valid", "mutate-byte", "mutate-resigned", "truncate
 func TestDiscv4Datagrams(t *testing.T) {
 	getTable(false)
 	getTable(true)
-	ev.Check(t, ev.N(9000, 2_000_000), func(t *rapid.T) {
+	ev.Check(t, ev.N(9000, 1_200_000), func(t *rapid.T) {
 		fail := failer(t)
 		lt := getTable(rapid.Bool().Draw(t, "netcompat"))
 		att := rapid.IntRange(0, len(attackers)-1).Draw(t, "attacker")
